@@ -17,9 +17,9 @@ import (
 // behind each handler, then waits.  Every hand-over from one queued event to
 // the next is a chance to lose a wake-up.
 type BurstCase struct {
-	ViaAny bool `json:"via_any,omitempty"` // events are published through the static type any
-	N        int   `json:"n"`      // events per burst
-	Rounds   int   `json:"rounds"` // bursts (same bus)
+	ViaAny   bool  `json:"via_any,omitempty"` // events are published through the static type any
+	N        int   `json:"n"`                 // events per burst
+	Rounds   int   `json:"rounds"`            // bursts (same bus)
 	Handlers []H   `json:"handlers"`
 	Spin     []int `json:"spin"` // busy iterations per event inside the handler (cyclic)
 	Procs    int   `json:"procs"`
